@@ -39,6 +39,18 @@ def _copy(v, depth: int = 0):
         return collections.deque((_copy(x, depth + 1) for x in v), v.maxlen)
     if t is bytearray:
         return bytearray(v)
+    if isinstance(v, dict) and getattr(t, '__module__', '').startswith('exabgp'):
+        # a dict subclass of exabgp's own (util.cache.Cache inside Attribute.cache): a fresh instance with copied items and attributes
+        import copy as _c
+
+        c = _c.copy(v)
+        dict.clear(c)
+        for k, x in v.items():
+            dict.__setitem__(c, k, _copy(x, depth + 1))
+        for k, x in list(vars(c).items()):
+            if isinstance(x, _CONTAINERS):
+                setattr(c, k, _copy(x, depth + 1))
+        return c
     return v
 
 
